@@ -37,6 +37,7 @@ class ResurrectorSink(ClientMessageSink):
     self._next_factory = next_factory
     self._resurrector = None
     self._down_on = None
+    self._closed = False
     self._initial_wait_interval = sink_properties.initial_wait_interval
     self._max_wait_interval = sink_properties.max_wait_interval
     self._backoff_exponent = sink_properties.backoff_exponent
@@ -96,6 +97,7 @@ class ResurrectorSink(ClientMessageSink):
       wait_interval = min(wait_interval, self._max_wait_interval)
 
   def Open(self):
+    self._closed = False
     if not self.next_sink:
       self.next_sink = self._next_factory.CreateSink(self._properties)
       self.next_sink.on_faulted.Subscribe(self._OnSinkFaulted)
@@ -104,12 +106,14 @@ class ResurrectorSink(ClientMessageSink):
     def on_open_done(ar):
       # An endpoint that is unreachable at the first connect is as down as one
       # that faults later: fail fast and start resurrecting it.
-      if ar.exception and not self._down_on and self.next_sink is sink:
+      if (ar.exception and not self._down_on and not self._closed
+          and self.next_sink is sink):
         self._OnSinkFaulted(ar.exception)
     open_ar.rawlink(on_open_done)
     return open_ar
 
   def Close(self):
+    self._closed = True
     if self._resurrector:
       self._resurrector.kill(block=False)
       self._resurrector = None
